@@ -175,6 +175,9 @@ def run_property(prop, tier, seed, workers=None, extra_evidence=None, kani_part=
         with multiprocessing.Pool(min(workers, len(jobs)), initializer=_init, initargs=(meta,)) as pool:
             for r in pool.imap_unordered(work_one, jobs, chunksize=max(1, min(16, len(jobs) // (workers * 8) or 1))):
                 results.append(r)
+    if os.environ.get("VERIF_PROFILE"):
+        for r in sorted(results, key=lambda r: -r.get("wall", 0))[:8]:
+            print(f"[profile] {r.get('wall', 0):.1f}s {r.get('tdesc')}", file=sys.stderr, flush=True)
     agg = {}
     confirmed, unconfirmed, undecided, errors, mism = [], [], [], [], []
     witness = 0
